@@ -331,9 +331,11 @@ def parse_fixed_table(table_lines,
 
     def calc_column_indices(line, headers):
         idx = []
+        start = 0
         for h in headers:
-            i = idx[-1] + 1 if idx else 0
-            idx.append(line.index(h, i))
+            # search after the end of the previous header, not inside it
+            idx.append(line.index(h, start))
+            start = idx[-1] + len(h)
         return idx
 
     first_line = calc_offset(table_lines, heading_ignore)
